@@ -180,10 +180,13 @@ const CAPTURE_BADVERS: &[u8] = &[
 
 pub fn run(ctx: &mut Ctx) {
     let tier = ctx.tier;
-    let scale = if ctx.slow_tool { 0 } else { tier.pick(1u64, 50u64) };
+    let scale = if ctx.slow_tool { 0 } else { tier.pick(10u64, 1000u64) };
     let nw = if ctx.slow_tool { 30 } else { 8_000 * scale };
     for idx in 0..nw {
         if ctx.take("write", idx) {
+            if ctx.stop("write") {
+                break;
+            }
             write_side(ctx, idx);
         }
     }
@@ -215,6 +218,9 @@ pub fn run(ctx: &mut Ctx) {
     for idx in 0..nr {
         if !ctx.take("read", idx) {
             continue;
+        }
+        if ctx.stop("read") {
+            break;
         }
         let mut r = ctx.rng("read", idx);
         let mut g = Gen::new(&mut r, Cfg { share: 50, ..Default::default() });
